@@ -22,7 +22,7 @@ for d in sorted(glob.glob(ROOT + "/seeded/*/")):
     m = json.load(open(d + "meta.json"))
     name = os.path.basename(d.rstrip("/"))
     det = m.get("detected_by", "")
-    missed = det.lower().startswith("missed") or "missed at first" in det.lower() or "caught only after" in det.lower() or "only after" in det.lower()
+    missed = det.lower().startswith("missed") or det.startswith("NOT DETECTED") or "missed at first" in det.lower() or "caught only after" in det.lower() or "only after" in det.lower()
     summ = re.sub(r"\s+", " ", m.get("summary", ""))[:230]
     if missed:
         first, after = "missed", re.sub(r"\s+", " ", det)
